@@ -11,7 +11,7 @@ from pathlib import Path
 VERIF = Path(__file__).resolve().parent.parent
 OUT = VERIF / "seeded"
 rows = []
-for sd in sorted(glob.glob("/tmp/seed_C*/m?")) + sorted(glob.glob("/tmp/seed2_C*/m?")) + sorted(glob.glob("/tmp/seed3_C*/m?")) + sorted(glob.glob("/tmp/seed4_C*/m?")):
+for sd in sorted(glob.glob("/tmp/seed_C*/m?")) + sorted(glob.glob("/tmp/seed2_C*/m?")) + sorted(glob.glob("/tmp/seed3_C*/m?")) + sorted(glob.glob("/tmp/seed4_C*/m?")) + sorted(glob.glob("/tmp/seed5_C*/m?")):
     sd = Path(sd)
     if not (sd / "patch.diff").exists() or not (sd / "demo.py").exists():
         continue
